@@ -147,7 +147,11 @@ def is_private_helper(crate, b):
     if b.path.startswith(CONTRACT_MODULES):
         return False
     if any(n.get('k') == 'Loop' for n in b.walk()):
-        return False    # functions with loops are never inlined: analysed on their own
+        # functions with loops are analysed on their own -- unless every loop reduces to a search / sum / max / min,
+        # in which case the evaluator inlines them like any other helper
+        from .evalr import Evaluator
+        if not Evaluator(crate).loops_all_reducible(b):
+            return False
     return internal_callers(crate).get(b.path, 0) > 0
 
 
